@@ -48,3 +48,18 @@ CLAIMS["C02"] = ("proof",
     _TB + "Not yet under contract: mesh command builders (Interferometer), Gaussian/GraphEmbed/GaussianTransform decompositions "
     "(LAPACK; planned as bounded stand-ins), Compiler.decompose driver.",
     "deductive verification: VCs from the real source + z3/cvc5 (NRA with transcendental abstraction)", "DESIGN.md 5/C02")
+CLAIMS["C04"] = ("other",
+    "Bounded stand-in, NOT a proof: exhaustive over all command sequences up to length 3 (quick) / 4 (thorough) on a 13-symbol "
+    "3-mode alphabet incl. feed-forward gates, plus random longer ones; checks per-wire grids, DAG paths between every "
+    "dependent pair (covers every legal linearisation), group_operations partitions, remove_loss, GBS measurement collection. "
+    "The contract technique has no unbounded reach here (dict-of-lists heap over networkx), see DESIGN 5/C04.",
+    "bounded by sequence length / mode count; networkx sorts trusted to return linear extensions of the DAG",
+    "bounded exhaustive enumeration against an independent dependency oracle (stand-in for contracts)", "DESIGN.md 5/C04")
+CLAIMS["C19"] = ("other",
+    "sample_to_event and orbit_to_sample are proved for lists of arbitrary length (exact integer spec). Everything else is a "
+    "BOUNDED stand-in with independent oracles: partitions (n<=35/60), exact multinomial cardinalities (orbits of n<=8, "
+    "modes<=60/200), conversions (<=4 modes), clique grow/swap/shrink and subgraph resize on every labelled graph with <=4/5 "
+    "nodes with EVERY outcome of every random choice explored and compared with reference implementations of the documented "
+    "selection rules. Three genuine defects found and repaired (fix: commits for orbit_cardinality x2, weight-mode index).",
+    "bounded parts are never counted as proved; builtins max/sum/shuffle under library contracts",
+    "deductive VCs for list functions + bounded exhaustive exploration of random choices", "DESIGN.md 5/C19")
